@@ -508,6 +508,51 @@ def nested_case(spec):
     return ("ok", viols[:4], len(r["trades"]))
 
 
+def backtest_universe_case(item):
+    """inside a real Backtest: a strategy that declared nothing sees every column of the data, one that
+    declared tickers sees exactly those - including a ticker that has no price at all (yet)"""
+    bt = rt.bt()
+    A = bt.algos
+    from .. import runfam as R
+
+    shape, empty_col, integer = item
+    data = R.table("d12", "exact", late=False)
+    if empty_col == "all_nan":
+        data["c"] = float("nan")
+    elif empty_col == "late":
+        data.iloc[:5, 2] = float("nan")
+    stack = [A.RunWeekly(), A.SelectAll(), A.WeighEqually(), A.Rebalance()]
+    if shape == "undeclared":
+        s = bt.Strategy("r", stack)
+        exp = {"r": ["a", "b", "c", "d"]}
+    elif shape == "declared":
+        s = bt.Strategy("r", stack, ["a", "c"])
+        exp = {"r": ["a", "c"]}
+    elif shape == "declared_nodes":
+        s = bt.Strategy("r", stack, [bt.Security("c"), bt.Security("d")])
+        exp = {"r": ["c", "d"]}
+    else:
+        sub = bt.Strategy("s", [A.RunWeekly(), A.SelectAll(), A.WeighEqually(), A.Rebalance()], ["c", "d"])
+        s = bt.Strategy("r", [A.RunWeekly(), A.WeighSpecified(s=0.5, a=0.25), A.Rebalance()], [sub, "a"])
+        exp = {"r": ["a", "s"], "r>s": ["c", "d"]}
+    b = bt.Backtest(s, data, integer_positions=integer, progress_bar=False)
+    viols = []
+    try:
+        b.run()
+    except Exception as e:
+        if rt.classify(e) == "guard":
+            return ("refused", [], 0)
+        return ("crash", [{"rule": "crash", "observed": rt.describe(e)}], 0)
+    for n in b.strategy.members:
+        if isinstance(n, bt.core.StrategyBase):
+            path = R.node_path(n)
+            if path in exp:
+                got = sorted(str(c) for c in n.universe.columns)
+                if got != sorted(exp[path]):
+                    viols.append({"rule": "universe_columns_in_backtest", "expected": {"node": path, "columns": sorted(exp[path]), "data_columns": list(data.columns), "column_c": empty_col}, "observed": got})
+    return ("ok", viols, 1)
+
+
 def replay(case):
     k = case["kind"]
     if k == "recipe":
@@ -518,11 +563,13 @@ def replay(case):
         return dynamic_case(tuple(case["where"]))[1]
     if k == "variants":
         return variants_case(case["spec"])[1]
+    if k == "btuniverse":
+        return backtest_universe_case(tuple(case["where"]))[1]
     return nested_case(case["spec"])[1]
 
 
 def run(ctx):
-    ctx.rule = "every construction recipe for trees of <= 3 levels (children as node / string / lazy node / dict entry / parent= attachment, duplicates included) with a structure walker, then set-up, settings pushed from the root and lazy creation; lazy / eager / undeclared variants of every flat run of the family; nested runs for sub-strategy universe columns; non-trivial = distinct recipe that was built, or run with at least one trade"
+    ctx.rule = "every construction recipe for trees of <= 3 levels (children as node / string / lazy node / dict entry / parent= attachment, duplicates included) with a structure walker, then set-up, settings pushed from the root and lazy creation; lazy / eager / undeclared variants of every flat run of the family; nested runs for sub-strategy universe columns; universes inside real backtests whose data has a column without any price; non-trivial = distinct recipe that was built, or run with at least one trade"
     ctx.assumptions += [
         "lazy vs eager: bit-for-bit with integer positions on the exact alphabet, 1e-9 relative otherwise; integer positions on decimal data are left out (a different summation order may flip a floor)",
         "a lazily declared name followed by an eager node of the same name is tolerated by the library (the eager node wins)",
@@ -571,5 +618,13 @@ def run(ctx):
                 ctx.mark(("nested", kind, runcheck._key(spec)))
             for v in viols:
                 ctx.violation(dict(v, build=kind, module=MOD, case={"kind": "nested", "spec": spec}))
+    bu = [(sh, ec, integer) for sh in ("undeclared", "declared", "declared_nodes", "nested") for ec in ("full", "late", "all_nan") for integer in (True, False)]
+    for kind in kinds:
+        for item, (status, viols, n) in ctx.run(kind, MOD, "backtest_universe_case", bu, chunksize=2):
+            ctx.add(states=1, transitions=1, traces_validated_against_impl=1, evaluations=1)
+            if status == "ok":
+                ctx.mark(("btuniverse", kind) + tuple(map(str, item)))
+            for v in viols:
+                ctx.violation(dict(v, build=kind, module=MOD, case={"kind": "btuniverse", "where": list(item)}))
     ctx.sample({"recipe": recs[len(recs) // 2]})
     ctx.sample({"variant_spec": vspecs[3]})
